@@ -12,6 +12,7 @@ import os
 import pickle
 
 import numpy as np
+from ..common import aeq  # noqa: E402
 
 from .. import build as B
 from .. import scen
@@ -80,7 +81,7 @@ def cmp_arrays(a, b, what, exact=True, tol=1e-12):
     if a.dtype.kind != b.dtype.kind:
         return f"{what}: dtype {a.dtype} != {b.dtype}"
     if exact:
-        if not np.array_equal(a, b):
+        if not aeq(a, b):
             return f"{what}: values differ (max |diff| {max_err(a, b):.3g})"
     elif a.size and float(np.max(np.abs(a - b))) > tol * (1 + float(np.max(np.abs(a)))):
         return f"{what}: values differ by {max_err(a, b):.3g}"
